@@ -99,8 +99,7 @@ Proof. eexists. vm_compute. repeat split. Qed.
 (* the full statement on the fragment of Lemmas/ElementProofs.v (see Props/C01.v): no complaint of
    any kind, in particular none of this property *)
 Theorem C04_full_statement_on_fragment : forall E,
-  o_merge_props (e_opts E) = false ->
   forall h el, good E h el -> forall f s, (h <= f)%nat -> assign_left s = None ->
   filter (starts_with (s_ "C04:")) (check_site E f el (fst (lower_el E el s))) = [].
-Proof. intros E MP h el G f s LE Q. destruct (element_refines E MP h el G f s LE Q) as [H _]. rewrite H. reflexivity. Qed.
+Proof. intros E h el G f s LE Q. destruct (element_refines E h el G f s LE Q) as [H _]. rewrite H. reflexivity. Qed.
 Print Assumptions C04_full_statement_on_fragment.
